@@ -130,8 +130,8 @@ func (fr *Frame) libCall(i *ssa.Call, callee *ssa.Function, args []Val, st *Stat
 		x.usedAssumptions["EXT: "+name+" treated as an arbitrary total function without side effects"] = true
 		fr.setResult(i, x.havocResultsSig(i.Call.Signature(), "ext"), st)
 	case "strconv.ParseFloat":
-		use("STR: strconv.ParseFloat as uninterpreted functions of its argument")
-		fr.regs[i] = Tuple{TV{T: mk(SF64, "pf_val", ts(0))}, TV{T: mk(SErr, "pf_err", ts(0))}}
+		use("STR: strconv.ParseFloat as uninterpreted functions of its arguments (text and bit size)")
+		fr.regs[i] = Tuple{TV{T: mk(SF64, "pf_val", ts(0), ts(1))}, TV{T: mk(SErr, "pf_err", ts(0), ts(1))}}
 	case "math.IsNaN":
 		use("F64: math.IsNaN / math.IsInf as uninterpreted predicates of their argument")
 		fr.regs[i] = TV{T: mk(SBool, "f64_isnan", ts(0))}
